@@ -190,6 +190,15 @@ pub fn run_sim_warm<R: Send>(env: &Env, warm: impl Fn() + Sync + Send, f: impl F
     // threads created from here on inherit this affinity mask
     crate::driver::set_cpus(env.cpus.max(1));
     let saved_vars = set_env_vars(env.envvars_seed);
+    // the application's logging configuration is part of the environment too (what RUST_LOG
+    // selects): a no-op logger is installed once per OS process, its level follows the seed
+    crate::fault::set_heap_poison(env.heap_seed);
+    install_logger();
+    log::set_max_level(match env.envvars_seed % 3 {
+        0 => log::LevelFilter::Off,
+        1 => log::LevelFilter::Debug,
+        _ => log::LevelFilter::Trace,
+    });
     seams::set_envvars_seed(env.envvars_seed);
     seams::set_foreign_seed(env.sched_seed);
     sim::reset_pool_ids(0);
@@ -236,6 +245,8 @@ pub fn run_sim_warm<R: Send>(env: &Env, warm: impl Fn() + Sync + Send, f: impl F
     let foreign_threads = seams::foreign_threads();
     seams::set_foreign_seed(0);
     restore_env_vars(saved_vars);
+    log::set_max_level(log::LevelFilter::Off);
+    crate::fault::set_heap_poison(0);
     let results = results.map_err(|_| LAST_PANIC.lock().map(|g| g.clone()).unwrap_or_default());
     let mut stats = RunStats::from(&trace, counters);
     stats.foreign_threads = foreign_threads;
@@ -255,6 +266,25 @@ pub fn run_sim_once<R: Send>(env: &Env, f: impl FnOnce() -> R + Send) -> Result<
         f()
     });
     o.results.map(|mut v| v.remove(0))
+}
+
+struct NoopLogger;
+impl log::Log for NoopLogger {
+    fn enabled(&self, _: &log::Metadata) -> bool {
+        true
+    }
+    fn log(&self, r: &log::Record) {
+        // format the message (side effects in arguments happen), discard it
+        let _ = std::hint::black_box(format!("{}", r.args()));
+    }
+    fn flush(&self) {}
+}
+static NOOP_LOGGER: NoopLogger = NoopLogger;
+fn install_logger() {
+    static ONCE: std::sync::Once = std::sync::Once::new();
+    ONCE.call_once(|| {
+        let _ = log::set_logger(&NOOP_LOGGER);
+    });
 }
 
 const VARS: &[&str] = &["RAYON_NUM_THREADS", "OMP_NUM_THREADS", "OPENBLAS_NUM_THREADS", "MKL_NUM_THREADS", "LANG", "LC_ALL", "LC_NUMERIC", "TZ", "HOME", "USER", "COLUMNS", "RUST_LOG", "RUST_BACKTRACE"];
